@@ -236,6 +236,7 @@ func runE2E(c *fw.Ctx) {
 				t["e2e_out_style_attrs"] += int64(full.StyleAttrs)
 				classes := inputClasses(inHTML)
 				if len(classes) > 0 || len(full.KeptProps) > 0 {
+					c.Unit()
 					c.NonTrivial("e2e|" + shape + "|" + strings.Join(classes, ","))
 				}
 			}
